@@ -23,9 +23,10 @@ CLAIMS = {
              "bad file gives exactly one message and leaves all options unchanged; table completeness is a finite "
              "mechanical obligation per option.",
         note="Option values are opaque JSON values; open/json5.load/os.path abstracted by ghost inputs; set-valued "
-             "options assumed iterable (wrong scalar/set value types are a recorded known finding, checked "
-             "natively, bounded); debug_log's one-way override not specified.",
-        technique="VC generation from the Python AST (pyvc) + z3/cvc5; option table read from the AST",
+             "options iterable under the ghost verdict types_ok of _check_config_types (that it accepts exactly the "
+             "well-typed files is checked natively on typed/mistyped tables, bounded); the *effect* of an option "
+             "downstream is observed for six options only (native, one interpreter per server).",
+        technique="VC generation from the Python AST (pyvc) + z3/cvc5; option table read from the AST; native tables and option-effect probes as bounded stand-in",
         design="3/C19"),
     "C15": dict(
         text="Narrow layer: workers share no state (effect analysis over everything reachable from the static method file_init), "
@@ -153,7 +154,7 @@ CLAIMS = {
              "not mutate the server's pp_defs/include_dirs arguments (frame analysis). Histories of sync events compared with "
              "a freshly started server are the bounded stand-in.",
         note="Obligations are structural (shape of each resolver) and frame-analytic, not a proof that recomputed values "
-             "equal a fresh server's: that equality is observed only on the bounded histories (24 histories, 9 files).",
+             "equal a fresh server's: that equality is observed only on the bounded histories (31 histories over a 21-file workspace).",
         technique="freshness/frame obligations over the AST and call graph (pyvc mode E); native history replay as bounded stand-in",
         design="3/C10"),
     "C04": dict(
@@ -190,7 +191,7 @@ CLAIMS = {
              "check_valid_parent methods. Silence on valid programs and the resolution-dependent detectors are decided only on "
              "generated programs with one seeded defect per class and position (bounded stand-in, not proof).",
         note="'standard-conforming program' has no specification short of a model of Fortran; the generated-program oracle covers "
-             "19 defect classes at random applicable positions of three-file programs and is labelled bounded.",
+             "22 defect classes at random applicable positions of three-file programs and is labelled bounded.",
         technique="VCs (pyvc mode F) with fold specifications on the detector functions; generated valid/defective programs as bounded stand-in",
         design="3/C07"),
     "C11": dict(
